@@ -45,7 +45,7 @@ type Op struct {
 type Script struct {
 	Cfg Cfg  `json:"cfg"`
 	Ops []Op `json:"ops"`
-	// Share: the calls take their options as views of one backing array (options_arena.go)
+	// Share: the calls take their options as views of one backing array (common_arena.go)
 	Share bool `json:"share,omitempty"`
 }
 
